@@ -124,7 +124,8 @@ impl DeletionParser {
             name_pair.next().unwrap().as_str()
         };
         let model_entity = data_model.get_entity(entity_name)?;
-        entity.name = entity_name.to_string();
+        //the namespace is not case sensitive: the rights and the system entities are checked against the name of the data model
+        entity.name = model_entity.name.clone();
         entity.short_name = model_entity.short_name.clone();
 
         for entity_pair in entity_pairs {
